@@ -410,6 +410,84 @@ func reuseScenario(first string) *mc.Scenario {
 	return &mc.Scenario{Name: fmt.Sprintf("mux-reuse[%q alone, closed twice ; then \"AAy\" and \"BBz\" together, 1-byte reads]", first), Body: body, Check: check, Model: sched.Deviation, NoCache: true}
 }
 
+// parkedScenario: nobody accepts on one of the listeners (a busy or absent consumer), so a connection
+// routed to it waits in the multiplexer; connections for the other listener must still be delivered,
+// Route must still answer, and stopping the multiplexer must still work (closing what was parked).
+func parkedScenario(idle string) *mc.Scenario {
+	body := func() {
+		st := &muxState{acceptErrors: map[string]int{}}
+		sched.Cur().State()["st"] = st
+		base := &fakenet.Listener{}
+		mux := drpcmigrate.NewListenMux(base, 2)
+		ctx, cancel := context.WithCancel(context.Background())
+		route := mux.Route("AA")
+		vs.Go("run", func() { st.runErr = mux.Run(ctx); st.runReturned = true })
+		served, servedName := net.Listener(route), "route"
+		parkedData, servedData := "BBp", "AAs"
+		if idle == "route" {
+			served, servedName = mux.Default(), "default"
+			parkedData, servedData = "AAp", "BBs"
+		}
+		vs.Go("acc-"+servedName, func() {
+			for {
+				c, err := served.Accept()
+				if err != nil {
+					st.acceptErrors[servedName]++
+					return
+				}
+				got, _ := io.ReadAll(c)
+				st.accepts = append(st.accepts, accepted{by: servedName, got: got})
+				_ = c.Close()
+			}
+		})
+		var srv []*tr.End
+		connect := func(i int, data string) {
+			c, s := tr.New(fmt.Sprintf("c%d", i), fmt.Sprintf("s%d", i), tr.Options{Cap: -1})
+			srv = append(srv, s)
+			base.Push(fakenet.Conn{End: s})
+			vs.Go(fmt.Sprintf("client%d", i), func() { _, _ = c.Write([]byte(data)); _ = c.Close() })
+		}
+		connect(0, parkedData) // nobody will accept this one
+		sched.Quiesce()
+		connect(1, servedData)
+		routed := false
+		vs.Go("router", func() { _ = mux.Route("AA"); routed = true }) // (the existing prefix: a second route would make Run iterate a two-entry map)
+		sched.Quiesce()
+		want := servedData
+		if servedName == "route" {
+			want = servedData[2:]
+		}
+		if len(st.accepts) != 1 || string(st.accepts[0].got) != want {
+			st.failf("a connection for the %s listener (which has an Accept pending) was not delivered while another connection waits for the idle %s listener: accepted=%d; blocked=%s", servedName, idle, len(st.accepts), wl.BlockedSummary(sched.BlockedNow()))
+		}
+		if !routed {
+			st.failf("Route blocks while a connection waits for an idle listener; blocked=%s", wl.BlockedSummary(sched.BlockedNow()))
+		}
+		wl.Cancel(cancel)
+		sched.Quiesce()
+		if !st.runReturned {
+			st.failf("Run did not return after its context was cancelled while a connection waits for an idle listener; blocked=%s", wl.BlockedSummary(sched.BlockedNow()))
+		} else if srv[0].Closes != 1 {
+			st.failf("the connection that was waiting for the idle listener was closed %d times when the multiplexer stopped (want once: it was never delivered)", srv[0].Closes)
+		}
+		if lib := wl.LibBlocked(sched.BlockedNow()); len(lib) > 0 {
+			st.failf("multiplexer goroutines left behind: %s", wl.BlockedSummary(lib))
+		}
+		sched.Observef("accepts=%d routed=%v", len(st.accepts), routed)
+	}
+	check := func(e *sched.Exec) string {
+		if len(e.Panics) > 0 {
+			return "panic: " + e.Panics[0]
+		}
+		st := e.State()["st"].(*muxState)
+		if len(st.fails) > 0 {
+			return st.fails[0]
+		}
+		return ""
+	}
+	return &mc.Scenario{Name: fmt.Sprintf("mux-parked[nobody accepts on the %s listener ; a connection for it, then one for the other listener, Route, stop]", idle), Body: body, Check: check, Model: sched.Deviation, NoCache: true}
+}
+
 func closedCount(ends []*tr.End) int {
 	n := 0
 	for _, s := range ends {
@@ -538,6 +616,9 @@ func basePlans(tier string) []mc.Plan {
 		ps = append(ps, mc.Plan{Scen: muxScenario([]connSpec{{"AAx", []int{1, 2}}}, stop, true), Bounds: b, Split: len(b) > 2})
 	}
 	ps = append(ps, mc.Plan{Scen: rerouteScenario(), Bounds: []int{0, 1, 2}, Split: true})
+	for _, idle := range []string{"default", "route"} {
+		ps = append(ps, mc.Plan{Scen: parkedScenario(idle), Bounds: []int{0, 1, 2}, Split: true})
+	}
 	for _, first := range []string{"BBx", "AAx"} {
 		ps = append(ps, mc.Plan{Scen: reuseScenario(first), Bounds: []int{0, 1, 2}, Split: true})
 	}
